@@ -258,7 +258,7 @@ def gen(tier, seed):
                 cfg = dict(cfg, api="parser")
             if cfg["cr"] == "ALWAYS_MERGE" and not mergeable:
                 cfg = dict(cfg, cr=rng.choice(["AUTO", "EXPLICIT", "NONE"]))
-            c = {"forest": forest, "cfg": cfg}
+            c = {"forest": forest, "cfg": cfg, "uniform": uniform}
             if c not in cases[-per:]:
                 cases.append(c)
     return cases
@@ -505,7 +505,7 @@ def features(case, obs):
             "optional_member": any(_has(c, lambda x: x["k"] == "nest" and x["opt"]) for _, c, _ in f),
             "reuse": len({c["c"] for _, c, _ in f}) < len(f),
             "inherit": any(c.get("cuts") for _, c, _ in f),
-            "merge_shape": (merge_cause(case) if cfg["cr"] == "ALWAYS_MERGE" else "-"),
+            "merge_shape": (("same-class-everywhere" if case.get("uniform") else merge_cause(case)) if cfg["cr"] == "ALWAYS_MERGE" else "-"),
             "outcome": obs["outcome"][0] + (":" + str(obs["outcome"][1]) if len(obs["outcome"]) > 1 else "")}
 
 
